@@ -59,7 +59,7 @@ PROPS["C04"] = {
             "Non-trivial = history has >=1 stop request and >=1 crash, or a send issued before Started was handled.  Distinct = canonical JSON.  "
             "Schedule-owning legs (package actor rewritten, one managed thread at a time): 1..3 sender threads issue up to 7 sends / panicking sends / Stop / Poison against one actor "
             "(MaxRestarts 0..3, inbox 1..4) under a generated schedule - uniform choices, or a priority schedule with up to 4 priority change points (PCT) - and, for 6 two-sender configurations, "
-            "under EVERY schedule with <= 1 preemption (quick; plus the first 15 000 with <= 2) or <= 2 preemptions (thorough, 60 000..190 000 schedules each, complete).  At quiescence (no runnable "
+            "under EVERY schedule with <= 1 preemption (quick; plus the first 6 000 with <= 2) or <= 2 preemptions (thorough, 60 000..190 000 schedules each, complete).  At quiescence (no runnable "
             "thread - a fact, not a timeout): every incarnation's log is Initialized, Started, messages, at most one Stopped and nothing behind it; a replaced incarnation was told Stopped; with a stop "
             "request issued the actor is unregistered and its last incarnation ended with Stopped.",
     "technique": "model-based property testing (rapid) of generated single-actor histories against a reference lifecycle model; schedule-owning legs (vsched: uniform and priority (PCT) schedules, preemption-bounded enumeration) for Send||Stop||Poison||crash interleavings",
